@@ -6,6 +6,7 @@
 (*   e = "A2"  in.a, in.b    comparison laws on a pair                     *)
 (*   e = "A3"  in.a, b, c    transitivity on a triple                      *)
 (*   e = "S"   in.s          string layer (symbol sequence)                *)
+(*   e = "D"   in.d          crash-freedom on a degenerate domain          *)
 (*   e = "P2"  in.s, in.t    comparison of two arbitrary strings           *)
 (*   e = "P3"  in.s, t, u    transitivity on three arbitrary strings       *)
 (* Addresses in outputs are abstracted back to (base, spelling) by the     *)
@@ -56,7 +57,10 @@ VP3(r) == LET viol == ViolP3(r.out)
   Mk(r, viol, IF (viol = {} /\ ~mod) \/ ([eq12 |-> r.out.eq12, eq23 |-> r.out.eq23, eq13 |-> r.out.eq13] = m
                                          /\ ViolP3(m) = viol) THEN {{}} ELSE {})
 
+VD(r) == LET viol == ViolD(r.out) IN Mk(r, viol, IF viol = {} THEN {{}} ELSE {})
+
 Verdict(r) == CASE r.e = "A1" -> V1(r)
+                [] r.e = "D"  -> VD(r)
                 [] r.e = "P2" -> VP2(r)
                 [] r.e = "P3" -> VP3(r)
                 [] r.e = "A2" -> V2(r)
